@@ -12,7 +12,15 @@ OPTIONAL member is left out.  The expectation follows the specification (Coq: Mo
 expected_type): the open member is resolved to the mapped type iff resolution is on and the governing
 value - explicit or defaulted - is in the map in force; otherwise it holds the complete encoding.  A
 record without a governing value is outside the property's quantifier when resolution is on (the decoder
-raises; only the correspondence with the model is checked there); with resolution off it must stay raw."""
+raises; only the correspondence with the model is checked there); with resolution off it must stay raw.
+
+The declared type map is a live object (OpenType stores the caller's dict by reference): a case carries the
+dict's content when the type is defined (`map0`, or None for OpenType(name) without a map), a history of
+writes to the caller's dict (`map_ops`: ('set', g, T) registers or replaces, ('del', g) removes) done after
+the type definition or between encoding and decoding (`ops_when`), and optionally two OpenType objects made
+over the same dict at different moments (`share` = which of them the record uses).  The expectation is
+computed from the dict's content AT DECODE TIME (map_at_decode; Coq: Model/OpenTypeMap.map_now);
+`case['map']` is that content."""
 from harness import core, codec, universe as U, implrun as I, gen
 from harness.coqio import cbool, cbytes, clist, cnat
 from harness.gen import base_desc
@@ -20,7 +28,7 @@ core.use_repo()
 from pyasn1.type import univ, namedtype, opentype, base
 
 MODES = [('BER', True), ('BER', False), ('CER', None), ('DER', None)]
-IMPORTS = 'Model.Enc Model.Dec Model.Obs Model.OpenType Model.OpenTypeDef'
+IMPORTS = 'Model.Enc Model.Dec Model.Obs Model.OpenType Model.OpenTypeDef Model.OpenTypeMap'
 UNIV_NUM = {'bool': 1, 'int': 2, 'bits': 3, 'octs': 4, 'null': 5, 'oid': 6, 'real': 9, 'enum': 10,
             'seq': 16, 'seqof': 16, 'set': 17, 'setof': 17}
 
@@ -119,20 +127,85 @@ def outer_desc(case):
 # ---------------------------------------------------------------------------------------------
 # pyasn1 objects through the public API
 
+def map_history(case):
+    """(content of the caller's dict when the type is defined - None: no dict given -, writes done afterwards)"""
+    if 'map0' in case:
+        m0 = case['map0']
+        return (None if m0 is None else [(tuple(g), T) for g, T in m0]), [tuple(o) for o in case.get('map_ops') or []]
+    return [(tuple(g), T) for g, T in case['map']], []
+
+
+def map_step(m, op):
+    """twin of Coq map_step: ('set', g, T) registers or replaces, ('del', g) removes"""
+    g = tuple(op[1])
+    rest = [(k, T) for k, T in m if tuple(k) != g]
+    return ([(g, op[2])] + rest) if op[0] == 'set' else rest
+
+
+def map_at_decode(case):
+    """the content of the declared map when the decoder consults it (twin of Coq map_now)"""
+    m0, ops = map_history(case)
+    m = list(m0 or [])
+    for op in ops:
+        m = map_step(m, op)
+    return m
+
+
+def same_map(a, b):
+    key = lambda m: sorted((repr(tuple(g)), repr(T)) for g, T in m)
+    return key(a) == key(b)
+
+
+class LiveMap(object):
+    """the caller's side of the type map: the dict handed to OpenType, the writes still to be done to it"""
+
+    def __init__(self, case):
+        m0, ops = map_history(case)
+        self.no_dict = m0 is None
+        self.d = None if m0 is None else dict((gov_key(g), U.build_type(T)) for g, T in m0)
+        self.pending = [] if m0 is None else list(ops)
+        self.views = []
+
+    def open_type(self, name):
+        ot = opentype.OpenType(name) if self.no_dict else opentype.OpenType(name, self.d)
+        self.views.append(ot)
+        return ot
+
+    def write(self, n=None):
+        """do the next n (default: all remaining) writes, through the caller's own reference to the dict"""
+        n = len(self.pending) if n is None else n
+        for op in self.pending[:n]:
+            if op[0] == 'set':
+                self.d[gov_key(op[1])] = U.build_type(op[2])
+            else:
+                self.d.pop(gov_key(op[1]), None)
+        self.pending = self.pending[n:]
+
+
 def build_spec(case):
+    """-> (record type, LiveMap).  With `share` two OpenType objects are made over the one dict, the first at
+    once, the second after half of the writes; the record is defined with the one `share` names.  The writes
+    left are done by the caller of this function (LiveMap.write) at the moment `ops_when` says."""
     nts = []
     gi, oi = case['gi'], case['oi']
+    live = LiveMap(case)
+    ot = live.open_type('f%d' % gi)
+    if case.get('share') is not None:
+        live.write(len(live.pending) // 2)
+        ot2 = live.open_type('f%d' % gi)
+        if case['share'] == 1:
+            ot = ot2
     for i, (p, ft) in enumerate(case['fields']):
         t = U.build_type(ft)
         kw = {}
         if i == oi:
-            kw['openType'] = opentype.OpenType('f%d' % gi, dict((gov_key(g), U.build_type(T)) for g, T in case['map']))
+            kw['openType'] = ot
         if is_def(p):
             nts.append(namedtype.DefaultedNamedType('f%d' % i, U.build_value(ft, p[1]), **kw))
         else:
             cls = namedtype.NamedType if p == 'req' else namedtype.OptionalNamedType
             nts.append(cls('f%d' % i, t, **kw))
-    return (univ.Sequence if case['outer'] == 'seq' else univ.Set)(componentType=namedtype.NamedTypes(*nts))
+    return (univ.Sequence if case['outer'] == 'seq' else univ.Set)(componentType=namedtype.NamedTypes(*nts)), live
 
 
 def build_outer_value(case, spec):
@@ -328,7 +401,50 @@ def gen_case(ctx, g):
     case = {'outer': outer, 'fields': fields, 'vals': vals, 'gi': gi, 'oi': oi, 'map': dmap, 'override': ov,
             'inner': inner, 'present': present, 'kind': kind, 'tagging': tagging, 'list': listkind, 'gform': gform}
     case['gov'] = effective_gov(case)
+    gen_history(case, rng, lambda: gen_inner_type(g, rng, avoid, need_tag), [fresh] + [gen_gov(rng, gkind) for _ in range(2)])
     return case
+
+
+def gen_history(case, rng, other_type, spare_keys):
+    """a life of the caller's dict that ends in case['map'] (the content at decode time): defined with that content and
+    never touched / defined empty and filled afterwards / defined with other content (entries of other types, entries
+    that go away, entries missing) and changed; sometimes two OpenType objects over the one dict"""
+    final = [(tuple(k), T) for k, T in case['map']]
+    hist = rng.choice(['static', 'static', 'empty-then-filled', 'empty-then-filled', 'changed', 'changed'])
+    m0, ops = list(final), []
+    if hist == 'empty-then-filled':
+        m0 = []
+        order = list(final)
+        rng.shuffle(order)
+        for k, T in order:
+            if rng.random() < .25:
+                ops.append(('set', k, other_type()))            # registered with another type first, then corrected
+            ops.append(('set', k, T))
+    elif hist == 'changed':
+        m0 = []
+        for k, T in final:
+            r = rng.random()
+            if r < .4:
+                m0.append((k, other_type())); ops.append(('set', k, T))         # replaced
+            elif r < .6:
+                ops.append(('set', k, T))                                       # registered later
+            else:
+                m0.append((k, T))
+        gone = [tuple(k) for k in spare_keys if lookup(final, tuple(k)) is None]
+        gone = [k for i, k in enumerate(gone) if k not in gone[:i]]
+        for k in gone[:rng.choice([1, 1, 2])]:
+            # an entry that is there when the type is defined (the record's own governing value among them, when
+            # that is unmapped in the end) and removed afterwards
+            T0 = other_type()
+            if rng.random() < .5:
+                m0.append((k, T0)); ops.append(('del', k))
+            else:
+                ops.append(('set', k, T0)); ops.append(('del', k))
+        rng.shuffle(m0)
+    case['map0'], case['map_ops'], case['history'] = m0, ops, hist
+    case['ops_when'] = rng.choice(['defined', 'defined', 'encoded']) if ops else 'defined'
+    case['share'] = rng.choice([None, None, 0, 1])
+    assert same_map(map_at_decode(case), final), (m0, ops, final)
 
 
 def targeted():
@@ -395,6 +511,31 @@ def targeted():
                         case['gov'] = effective_gov(case)
                         assert case['gov'] == geff
                         out.append(case)
+    # the type map as a live object: empty when the type is defined and filled afterwards (the schema-module pattern),
+    # an entry replaced, an entry removed, two OpenType objects over the one dict, no dict at all
+    g3 = ('i', 3)
+    fill = [('set', k, T) for k, T in dmap]
+    histories = [('empty-then-filled', [], fill, None, 'mapped'),
+                 ('empty-then-filled', [], fill, 0, 'mapped'), ('empty-then-filled', [], fill, 1, 'mapped'),
+                 ('changed', [(k, (T if k != g3 else ('octs',))) for k, T in dmap], [('set', g3, seqT)], None, 'mapped'),
+                 ('changed', [(k, T) for k, T in dmap if k != g3], [('set', g3, ('null',)), ('set', g3, seqT)], 1, 'mapped'),
+                 ('changed', list(dmap), [('del', g3)], None, 'unmapped'),
+                 ('changed', [(g3, seqT)], [('del', g3)], 0, 'unmapped'),
+                 ('no-dict', None, [], None, 'ov_add')]
+    for outer in ('seq', 'set'):
+        for a in anys:
+            for lk in (None, 'seqof', 'setof'):
+                oft = (lk, a) if lk else a
+                for hist, m0, ops, share, kind in histories:
+                    for when in (('defined', 'encoded') if ops else ('defined',)):
+                        case = {'outer': outer, 'fields': [('req', ('int',)), ('req', oft)], 'vals': [g3, None], 'gi': 0, 'oi': 1,
+                                'override': [(g3, seqT)] if kind == 'ov_add' else None, 'present': True, 'kind': kind,
+                                'tagging': {'any': 'untagged', 'imp': 'implicit', 'exp': 'explicit'}[a[0]], 'list': lk, 'gform': 'explicit',
+                                'map0': m0, 'map_ops': list(ops), 'ops_when': when, 'share': share, 'history': hist}
+                        case['map'] = map_at_decode(case)
+                        case['inner'] = [((('octs',), ('o', b'raw')) if kind == 'unmapped' else (seqT, seqV))] * (2 if lk else 1)
+                        case['gov'] = effective_gov(case)
+                        out.append(case)
     # OID-governed with a DEFAULT, caller's map deciding
     omap2 = [(('oid', (1, 3, 6, 1, 1)), ('bits',)), (('oid', (1, 3, 6, 1, 2)), seqT)]
     for gval in (None, ('oid', (1, 3, 6, 1, 1))):
@@ -430,7 +571,10 @@ def want_abs(T, v):
 def evaluate(case, cname, defm, dot, use_ov):
     """run encode + decode on the implementation and judge the property.
     -> dict(enc=..., dec=..., fails=[...], observed=(aval of the record as read) or None, ...)"""
-    spec = build_spec(case)
+    spec, live = build_spec(case)
+    late = case.get('ops_when') == 'encoded'
+    if not late:
+        live.write()                # the map is filled / changed after the type definition, before any value exists
     res = {'fails': [], 'enc': None, 'impl_lit': None}
     try:
         obj = build_outer_value(case, spec)
@@ -443,6 +587,8 @@ def evaluate(case, cname, defm, dot, use_ov):
     if e[0] != 'ok':
         res['fails'].append('encoder raised %s' % e[1])
         return res
+    live.write()                    # ... or between encoding and decoding
+    declared = map_at_decode(case)  # what the caller's dict holds now, from the history alone
     opts = dict(asn1Spec=spec)
     if dot:
         opts['decodeOpenTypes'] = True
@@ -461,7 +607,7 @@ def evaluate(case, cname, defm, dot, use_ov):
     if resolve_on and gov is not None:
         effT = lookup(ov, gov)
         if effT is None:
-            effT = lookup(case['map'], gov)
+            effT = lookup(declared, gov)
     res['effT'] = effT
     if resolve_on and gov is None and case['present']:
         # no governing value at all (OPTIONAL governing member left out): not a case of the property's
@@ -553,6 +699,16 @@ def evaluate(case, cname, defm, dot, use_ov):
             ok = raw_got == raw_want
         if None in raw_got or not ok:
             res['fails'].append('unresolved open member does not hold the complete encoding of the inner value')
+    # every OpenType object made over the caller's dict shows the dict's present content
+    for ot in live.views:
+        try:
+            shown = dict(ot.items())
+        except Exception:
+            shown = None
+        want_keys = set(gov_key(g) for g, _ in declared)
+        if shown is None or set(shown) != want_keys or (live.d is not None and any(shown[k] is not live.d[k] for k in shown)):
+            res['fails'].append("an OpenType object does not show the present content of the caller's type map")
+            break
     return res
 
 
@@ -624,7 +780,18 @@ def coq_gov(g):
 
 
 def coq_map(m):
-    return clist(['(%s, %s)' % (coq_gov(g), U.coq_ty(T)) for g, T in (m or [])])
+    return clist(['(%s, %s)' % (coq_gov(g), U.coq_ty(T)) for g, T in m]) if m else '(@nil (val * ty))'
+
+
+def coq_ops(ops):
+    return clist(['(MSet %s %s)' % (coq_gov(o[1]), U.coq_ty(o[2])) if o[0] == 'set' else '(MDel %s)' % coq_gov(o[1]) for o in ops]) \
+        if ops else '(@nil mop)'
+
+
+def coq_declared(case):
+    """the declared map as the model sees it: the content at definition time and the history (Model/OpenTypeMap.map_now)"""
+    m0, ops = map_history(case)
+    return '(map_now %s %s)' % (coq_map(m0), coq_ops(ops))
 
 
 def coq_outer_val(case):
@@ -644,7 +811,7 @@ def model_expr_group(case, cname, defm, runs):
     (case, codec mode): the literals and the first decoding pass are shared; runs = [(dot, use_ov, res)]"""
     d = 'true' if defm in (True, None) else 'false'
     res0 = runs[0][2]
-    lets = ['let T : ty := %s in' % U.coq_ty(outer_desc(case)), 'let dm : omap := %s in' % coq_map(case['map']),
+    lets = ['let T : ty := %s in' % U.coq_ty(outer_desc(case)), 'let dm : omap := %s in' % coq_declared(case),
             'let ov : omap := %s in' % coq_map(case['override'])]
     codes = ['enc_code (enc_open %s %s 0 T %s %s %s %s) %s' % (cname, d, cnat(case['oi']), coq_outer_val(case), cbool(case['present']),
                                                              coq_inner(case), I.coq_res_bytes(res0['enc']))]
@@ -673,7 +840,9 @@ def run(ctx):
                 'to the default - unset or set, never on the wire - or different from it, or OPTIONAL present/left out), 0-2 tagged siblings (some OPTIONAL), and '
                 'an open member ANY / [t] IMPLICIT ANY / [t] EXPLICIT ANY / SEQUENCE OF or SET OF of these, mandatory or OPTIONAL; default map of '
                 '1-4 governing values to inner types of the universe (depth<=2, constructed ones included); governing value mapped / unmapped / '
-                'mapped by the caller to a different type / added by the caller; inner value(s) of the effective type; x {BER def, BER indef, CER, DER} '
+                'mapped by the caller to a different type / added by the caller; inner value(s) of the effective type; the declared map is a live dict with a history (as at definition / defined empty then filled / '
+                'entries replaced, added, removed; writes after the definition or between encoding and decoding; 1 or 2 OpenType objects over it), expectation from '
+                'its content at decode time; x {BER def, BER indef, CER, DER} '
                 'x decodeOpenTypes {off,on} x openTypes {absent,present}; plus a fixed grid of targeted cases (every tagging x outer x list kind x '
                 'inner kind incl. the F01 and F50 classes); non-trivial = resolution on and value mapped, or inner value constructed/tagged')
     search_only = getattr(ctx, 'search_only', False)
@@ -693,6 +862,13 @@ def run(ctx):
         ctx.stats['tagging:' + case['tagging']] += 1
         ctx.stats['field:' + (case['list'] or 'scalar')] += 1
         ctx.stats['kind:' + case['kind']] += 1
+        m0_, ops_ = map_history(case)
+        ctx.stats['map history:%s%s' % (case.get('history', 'static'), '' if not ops_ else (', writes ' + ('between encoding and decoding' if case.get('ops_when') == 'encoded' else 'after the definition')))] += 1
+        ctx.stats['map when defined:%s' % ('no dict' if m0_ is None else ('empty' if not m0_ else 'non-empty'))] += 1
+        ctx.stats['OpenType objects over the dict:%s' % ('1' if case.get('share') is None else '2 (record uses #%d)' % case['share'])] += 1
+        if any(o[0] == 'del' for o in ops_): ctx.stats['map history has a removal'] += 1
+        if lookup(m0_ or [], case['gov']) != lookup(map_at_decode(case), case['gov']) and case['gov'] is not None:
+            ctx.stats['governing value mapped differently at definition and at decode time'] += 1
         ctx.stats['gov:' + base_desc(case['fields'][case['gi']][1])[0]] += 1
         ctx.stats['governing member:%s/%s/%s' % (gov_presence(case), case.get('gform', 'explicit'),
                                                  'on the wire' if gov_on_wire(case) else 'not on the wire')] += 1
@@ -766,6 +942,10 @@ def replay(data):
     vs = [tuple(v) for v in m['variants']] if 'variants' in m else [(m.get('decodeOpenTypes', True), m.get('use_override', False))]
     print('record  :', outer_desc(case)); print('values  :', case['vals']); print('map     :', case['map'])
     print('governing value (explicit or defaulted):', effective_gov(case), '(on the wire)' if gov_on_wire(case) else '(not on the wire)')
+    m0, ops = map_history(case)
+    print('map when the type was defined:', m0, '| writes since:', ops, '(%s)' % ('between encoding and decoding' if case.get('ops_when') == 'encoded' else 'after the definition'),
+          '| OpenType objects over the dict:', 1 if case.get('share') is None else '2, the record uses #%d' % case['share'])
+    print('map at decode time:', map_at_decode(case))
     print('override:', case['override']); print('inner   :', case['inner'])
     print('codec   :', cname, '' if defm is None else ('definite' if defm else 'indefinite'), '(class %s)' % classify(case, cname, defm))
     T = U.coq_ty(outer_desc(case))
@@ -781,6 +961,6 @@ def replay(data):
         print('property:', ('no expectation; ' if res.get('no_expectation') else '') + (str(res['fails']) if res['fails'] else 'holds'))
         if res['enc'] and res['enc'][0] == 'ok':
             print('model   :', core.coq_show(IMPORTS, 'dec_open_d %s %s %s %s %s %s %s %s' % (
-                cname, T, cnat(case['gi']), cnat(case['oi']), coq_map(case['map']), coq_map(case['override'] if use_ov else None),
+                cname, T, cnat(case['gi']), cnat(case['oi']), coq_declared(case), coq_map(case['override'] if use_ov else None),
                 cbool(dot), cbytes(res['enc'][1]))))
     return 0
